@@ -33,6 +33,10 @@ def targets(rng, tier):
         out.append(("snps", {"ref": cm.b64(refb), "aln": cm.b64(alnb)}))
         out.append(("snps", {"ref": cm.b64(refb), "aln": cm.b64(alnb), "aggregate": True}))
         out.append(("updown_list", {"ref": cm.b64(refb), "aln": cm.b64(alnb)}))
+        # every row written through the quoting path (IDs with commas and quotes), and a mixture
+        qrecs = [(nm, sq) for nm, sq in zip(['a,b', 'hCoV-19/x,y|2020', 'q"1"'], [r[1] for r in recs])]
+        out.append(("updown_list", {"ref": cm.b64(refb), "aln": cm.b64(gen.layout(rng, qrecs, "plain"))}))
+        out.append(("updown_list", {"ref": cm.b64(refb), "aln": cm.b64(gen.layout(rng, [recs[0], qrecs[1], recs[2]], "plain"))}))
         r2, qs, ts = udgen.make_inputs(rng, nq=2, nt=6)
         base = {"ref": cm.b64(gen.layout(rng, [("ref", r2)], "plain")), "query": cm.b64(gen.layout(rng, qs, "plain")),
                 "target": cm.b64(gen.layout(rng, ts, "plain")), "distall": 100, "threshpair": 1.0}
